@@ -275,6 +275,126 @@ def _(r, p):
 
 
 # --------------------------------------------------------------------------
+# NumPy-only ops (histories: C10 / C11)
+# --------------------------------------------------------------------------
+
+@op("viewshed")
+def _(r, p):
+    from xrspatial import viewshed
+    return viewshed(r[0], x=p["x"], y=p["y"], observer_elev=p.get("observer_elev", 0),
+                    target_elev=p.get("target_elev", 0))
+
+
+@op("a_star_search")
+def _(r, p):
+    from xrspatial import a_star_search
+    kw = {}
+    if p.get("barriers") is not None:
+        kw["barriers"] = list(p["barriers"])
+    for k in ("connectivity", "snap_start", "snap_goal"):
+        if p.get(k) is not None:
+            kw[k] = p[k]
+    return a_star_search(r[0], tuple(p["start"]), tuple(p["goal"]), **kw)
+
+
+@op("regions")
+def _(r, p):
+    return zonal.regions(r[0], neighborhood=p.get("neighborhood", 4))
+
+
+ZONAL_APPLY_FUNCS = {"double": lambda x: x * 2, "plus1": lambda x: x + 1, "zero": lambda x: 0}
+
+
+@op("zonal_apply")
+def _(r, p):
+    # by contract updates `values` in place and returns None: the result is `values`
+    zonal.apply(r[0], r[1], ZONAL_APPLY_FUNCS[p.get("func", "double")], nodata=p.get("nodata", 0))
+    return r[1]
+
+
+@op("trim")
+def _(r, p):
+    kw = {}
+    if p.get("values") is not None:
+        kw["values"] = tuple(p["values"])
+    return zonal.trim(r[0], **kw)
+
+
+@op("crop")
+def _(r, p):
+    return zonal.crop(r[0], r[1], tuple(p["zones_ids"]))
+
+
+CUSTOM_STATS = {"dbl_sum": lambda z: z.sum() * 2, "rng": lambda z: z.max() - z.min(),
+                "first": lambda z: z[0]}
+
+
+@op("zonal_stats_custom")
+def _(r, p):
+    funcs = {k: CUSTOM_STATS[k] for k in p["stats_funcs"]}
+    kw = {}
+    if p.get("zone_ids") is not None:
+        kw["zone_ids"] = list(p["zone_ids"])
+    if p.get("return_type"):
+        kw["return_type"] = p["return_type"]
+    return zonal.stats(r[0], r[1], stats_funcs=funcs, **kw)
+
+
+@op("zonal_stats_xarray")
+def _(r, p):
+    kw = {}
+    if p.get("stats_funcs") is not None:
+        kw["stats_funcs"] = list(p["stats_funcs"])
+    if p.get("zone_ids") is not None:
+        kw["zone_ids"] = list(p["zone_ids"])
+    return zonal.stats(r[0], r[1], return_type="xarray.DataArray", **kw)
+
+
+def _dataset(r):
+    names = "abcdefgh"
+    return xr.Dataset({names[i]: x for i, x in enumerate(r)})
+
+
+def _local(name, has_ref):
+    def f(r, p):
+        from xrspatial import local
+        fn = getattr(local, name)
+        ds = _dataset(r)
+        kw = {}
+        if p.get("data_vars") is not None:
+            kw["data_vars"] = list(p["data_vars"])
+        if name == "cell_stats" and p.get("func") is not None:
+            kw["func"] = p["func"]
+        if has_ref:
+            return fn(ds, p.get("ref_var", "a"), **kw)
+        return fn(ds, **kw)
+    return f
+
+
+for _n, _ref in (("cell_stats", False), ("combine", False), ("lesser_frequency", True),
+                 ("equal_frequency", True), ("greater_frequency", True), ("lowest_position", False),
+                 ("highest_position", False), ("popularity", True), ("rank", True)):
+    OPS["local_" + _n] = _local(_n, _ref)
+
+
+@op("polygonize")
+def _(r, p):
+    from xrspatial.experimental import polygonize
+    kw = {"connectivity": p.get("connectivity", 4)}
+    if len(r) > 1:
+        kw["mask"] = r[1]
+    if p.get("transform") is not None:
+        kw["transform"] = np.array(p["transform"], dtype=np.float64)
+    return polygonize(r[0], **kw)
+
+
+@op("bump")
+def _(r, p):
+    from xrspatial import bump
+    return bump(p.get("width", 8), p.get("height", 6), count=p.get("count"), spread=p.get("spread", 1))
+
+
+# --------------------------------------------------------------------------
 # materialising results
 # --------------------------------------------------------------------------
 
